@@ -180,6 +180,20 @@ pub fn run(a: &Args) {
 				b[0] ^= 1;
 				wrong.push(String::from_utf8_lossy(&b).to_string());
 			}
+			// a different password that differs only by trailing NUL bytes (HMAC pads short keys with zeros)
+			let nul_padded = vec![format!("{}\0", pw), format!("{}\0\0\0", pw)];
+			for wp in nul_padded.iter() {
+				rep.eval();
+				let r = {
+					let mut w = inst.lock();
+					let lc = w.lc_provider().unwrap();
+					(lc.get_mnemonic(None, ZeroingString::from(wp.as_str())), lc.open_wallet(None, ZeroingString::from(wp.as_str()), false, false))
+				};
+				match r {
+					(Err(_), Err(_)) => rep.count("wrong-password-refused"),
+					(a1, b1) => rep.violation("C12|wrong-password-accepted|password-plus-trailing-NUL-bytes", &format!("a password that differs from the saved one by trailing NUL bytes was accepted: get_mnemonic ok={} open_wallet ok={}", a1.is_ok(), b1.is_ok()), case()),
+				}
+			}
 			for wp in wrong.iter().filter(|w| *w != pw) {
 				rep.eval();
 				let r = {
